@@ -76,6 +76,22 @@ impl Ctx {
             // written down before the case starts
             self.write_checkpoint(idx, &cj);
         }
+        if cfg!(miri) {
+            // the interpreter lane runs a case inline (no watchdog thread polling /proc); the driver's wall-clock limit bounds it
+            let op = OpCell::default();
+            let mut out = CaseOut::default();
+            let res = std::panic::catch_unwind(std::panic::AssertUnwindSafe(|| f(&mut out, &op)));
+            for p in guard::take_panics() {
+                if p.in_repo() {
+                    out.failures.push(crate::report::Failure::new("panic", &format!("panic@{}", p.site()), &format!("{}|{}", p.norm_msg(), opclass), format!("thread={} at {} msg={}", p.thread, p.site_line(), p.msg.lines().next().unwrap_or("")), cj.clone()));
+                } else if res.is_err() || !p.file.contains("/harness/") {
+                    out.inconclusive.push(format!("panic outside the code under test at {}:{}: {}", p.file, p.line, p.msg.lines().next().unwrap_or("")));
+                }
+            }
+            self.report.merge(out);
+            self.write_report(None);
+            return;
+        }
         match guard::run_case(id, opclass, self.watchdog, cj, f) {
             CaseEnd::Done(out) => self.report.merge(out),
             CaseEnd::Hung(out) => {
